@@ -23,7 +23,11 @@ func candidates() (int, int, int) {
 func VerifC06Tick() {
 	vCommittee(vParam(2)) // committee size: the Alphabet is its 2n/3+1 account, the committee majority its n/2+1 one
 	vDeploy("netmap", false, nil, nil, nil, []any{})
-	vDeploy("balance", false, nil, nil)
+	if vParam(4) != 1 {
+		// param 4 = 1: a stand-alone Netmap. Balance subscribes at its deployment and checks the Alphabet witness in
+		// its own newEpoch, which would refuse the whole tick and hide a Netmap that has stopped checking it
+		vDeploy("balance", false, nil, nil)
+	}
 	vDeploy("probe1")
 	vDeploy("probe2")
 	n1, n2 := vAcct("n1"), vAcct("n2")
